@@ -48,6 +48,8 @@ def _record_job(job):
         steps = _AD.random_schedule(rng("driver", steps[1]), cfg, steps[2])
     try:
         return record(_AD, cfg, steps)
+    except common.Violation as v:
+        return {"cfg": cfg, "steps": [], "not_observable": f"violation: {v.what}", "violation": [v.key, v.what]}
     except Exception as e:   # construction/elaboration problems belong to C19
         return {"cfg": cfg, "steps": [], "not_observable": f"{type(e).__name__}: {e}"}
 
@@ -170,7 +172,9 @@ def check_into(run, prop, tier, ad):
     traces = pmap(_record_job, jobs)
     obs_t = []
     for t in traces:
-        if "not_observable" in t:
+        if "violation" in t:
+            run.report(t["violation"][0], t["violation"][1], {"cfg": t["cfg"]})
+        elif "not_observable" in t:
             run.not_observable({"cfg": t["cfg"], "why": t["not_observable"]})
         else:
             obs_t.append(t)
